@@ -8,6 +8,22 @@ from . import core
 from .core import log
 
 
+def run_all(prop, cases):
+    """core.run_both on the cases plus the auxiliary cases their oracles ask for."""
+    aux, owners = [], []
+    for c in cases:
+        c.meta.pop("_aux", None)
+        for a in prop.aux_cases(c):
+            aux.append(a)
+            owners.append(c)
+    if not aux:
+        return core.run_both(cases)
+    impl, model, errs = core.run_both(list(cases) + aux)
+    for a, c in zip(aux, owners):
+        c.meta.setdefault("_aux", []).append(impl.get(a.cid, {}))
+    return impl, model, errs
+
+
 class Prop:
     pid = "C00"
     lean_module = "RxModel.Props.C00"
@@ -58,6 +74,11 @@ class Prop:
 
     def extra_coverage(self, cases, impl):
         return {}
+
+    def aux_cases(self, case):
+        """Derived cases the oracle of `case` needs (run in the same batch, also while shrinking); their
+        implementation lines arrive as `case.meta['_aux']` (list of {event: body}), in this order."""
+        return []
 
     def cross_oracle(self, cases, impl, model):
         """Failures that relate several cases (e.g. the two flavours of one case):
@@ -133,7 +154,7 @@ def run_property(prop, tier, seed, replay=None):
                 seen.add(k)
                 uniq.append(c)
         cases = uniq
-        impl, model, errs = core.run_both(cases)
+        impl, model, errs = run_all(prop, cases)
         for e in errs:
             problems.append("run-error: " + e[:300])
         for c in cases:
@@ -157,7 +178,7 @@ def run_property(prop, tier, seed, replay=None):
     known_hits = {}
 
     def rerun(cands):
-        i2, m2, _ = core.run_both(cands)
+        i2, m2, _ = run_all(prop, cands)
         return i2, m2
 
     def shrink_failure(case, kind):
